@@ -269,6 +269,31 @@ def run(ctx, explain=False):
             calls += [["single", "sobol", sd, D, 0] for sd in sorted({lo, (1 << e) - 1, 1 << e, (1 << e) + 1, (1 << e) + 2, hi})]
             rng.shuffle(calls)
             sessions.append({"calls": calls, "source": "power-of-two-crossing"})
+    # beyond 2^19: windows across the multiples of 2^16 (none of them a power of two: the index changes in its upper bytes only)
+    for m in range(8, 16):
+        D = rng.choice([1, 2, 3])
+        lo, hi = 65536 * m - rng.randint(1, 4), 65536 * m + rng.randint(2, 5)
+        calls = [["batch", "sobol", lo, hi, D], ["front", "sobol", hi - lo + 1, D, lo], ["batch", "sobol", 65536 * m, 65536 * m + 1, D]]
+        calls += [["single", "sobol", sd, D, 0] for sd in (65536 * m - 1, 65536 * m, 65536 * m + 1)]
+        rng.shuffle(calls)
+        sessions.append({"calls": calls, "source": "multiple-of-2^16-crossing"})
+    # many dimensions at large seeds (seed x dimension >= 2^24), dimensions next to the multiples of 128
+    for j in range(ctx.pick(6, 21)):
+        D = 128 * (j % 7 + 1) + (1, 0, 1, -1, 1, 2)[j % 6]
+        sd = (1 << 24) // D + rng.randint(1, 3000)
+        calls = [["single", "sobol", sd, D, 0], ["batch", "sobol", sd, sd + 1, D], ["front", "sobol", D, 0, sd], ["single", "sobol", sd + 1, D, 0]]
+        rng.shuffle(calls)
+        sessions.append({"calls": calls, "source": "many-dimensions-large-seed"})
+    # the front end asked the same question of both methods in turn (same count, dimension, seed and form): order kept
+    for j in range(ctx.pick(4, 12)):
+        D, n = rng.choice([16, 32, 64]), rng.randint(1, 4)
+        sd = (1 << 22) // D + rng.randint(1, 5000)
+        first, second = ("sobol", "kgf") if j % 2 else ("kgf", "sobol")
+        if j % 3 == 0:
+            calls = [["front", first, D, 0, sd], ["front", second, D, 0, sd], ["front", first, D, 0, sd], ["single", second, sd, D, 0]]
+        else:
+            calls = [["front", first, n, D, sd], ["front", second, n, D, sd], ["front", first, n, D, sd], ["batch", second, sd, sd + n - 1, D]]
+        sessions.append({"calls": calls, "source": "both-methods-in-turn"})
     # windows that start at the first point: the net properties are checked on the returned numbers
     for i in range(ctx.pick(6, 40)):
         D = [1, 2, 3, 8, 40, 1000][i] if i < 6 else rng.randint(1, 1000)
